@@ -36,8 +36,28 @@ def rpu_sweep(ws, span=140, base=70):
 UNIT_ALPHABET = ["v%x" % x for x in list(range(10)) + [64, 65, 200]] + ["r"]
 
 
-def near(r, last, w):
+# exponents of the integer widths that occur in the transcribed functions (uint8_t PIV bytes,
+# uint16_t, int/uint32_t replay_window_size and ssn_freq, 40-bit sequence numbers, uint64_t
+# counters and window word) - differences of 2^k and 2^k +- (small | window) are generated
+# in every kind of history
+WIDTH_K = [8, 16, 24, 31, 32, 33, 39]
+WIDTH_K_UNIT = WIDTH_K + [40, 48, 63]
+
+
+def width_delta(r, w, ks=WIDTH_K):
+    k = r.choice(ks)
+    e = r.choice([0, 0, 1, -1, 2, -2, 3, w - 1, w, w + 1, -(w - 1), -w, -(w + 1), 62, 63, 64, 65, -63, -64])
+    m = r.choice([1, 1, 1, 2, 3])
+    return max(1, m * (1 << k) + e)
+
+
+def near(r, last, w, ks=WIDTH_K):
     """a sequence number aimed at the case boundaries of oscore_validate_sender_seq"""
+    c = r.random()
+    if c < 0.22:
+        # a jump / a look back by a multiple of a power of two (+- window)
+        d = width_delta(r, w, ks)
+        return last + d if (r.random() < 0.5 or last - d < 0) else last - d
     c = r.random()
     if c < 0.30:
         d = r.choice([0, 1, 2, 3, w - 1, w, w + 1, 62, 63, 64, 65, 66])
@@ -53,6 +73,60 @@ def near(r, last, w):
     return max(0, last + r.randrange(-70, 70))
 
 
+def width_probe_numbers(a, k, e, mult=1):
+    """accept a, jump ahead by mult*2^k+e, then look back at a and its neighbours, and at the
+    numbers that are one window / one word behind the new highest one"""
+    hi = a + mult * (1 << k) + e
+    return a, hi
+
+
+def rpu_width_probes(ws, ks=WIDTH_K_UNIT):
+    for w in ws:
+        ww = weff(w)
+        for k in ks:
+            for mult in (1, 2):
+                for e in sorted(set([0, 1, 2, 5, ww - 1, ww, ww + 1, 63, 64, -1, -2, -ww, -64])):
+                    for a in (8, 0, 300):
+                        hi = a + mult * (1 << k) + e
+                        if hi <= a or hi >= (1 << 64):
+                            continue
+                        yield "rpu fixed %s v%x v%x v%x v%x v%x v%x v%x" % (
+                            w, a, hi, a, a + 1, max(0, hi - 1), max(0, hi - ww), a)
+
+
+def rpd_width_probes(ws, ks=WIDTH_K):
+    for w in ws:
+        ww = weff(w)
+        for b12 in (0, 1):
+            for k in ks:
+                for mult in (1, 2):
+                    for e in sorted(set([0, 2, 10, ww - 1, ww, 63, 64, -1, -ww])):
+                        a = 8
+                        hi = a + mult * (1 << k) + e
+                        if hi <= a + 2 or hi >= SEQ_MAX:
+                            continue
+                        first = ("e%x" if b12 else "g%x") % a
+                        # accept a, accept hi, replay a (same datagram), the never-seen a+1 and
+                        # hi-1, a forgery claiming a+2, then a again
+                        yield rpd_line(w, b12, 0, [first, "g%x" % hi, first, "g%x" % (a + 1),
+                                                   "g%x" % (hi - 1), "f%x" % (a + 2), "P%x" % a, first])
+
+
+def rpx_width_probes(ks=WIDTH_K):
+    for b12 in (0, 1):
+        for k in ks:
+            for e in (0, 2, 10, 31, 32, 63, 64):
+                a = 8
+                hi = a + (1 << k) + e
+                if hi >= SEQ_MAX:
+                    continue
+                first = ("e%x" if b12 else "g%x") % a
+                # the jump is made by a notification; then the old request and an old
+                # notification number come back, genuine and made up
+                yield rpx_line("32", b12, [first, "q%x" % (a + 1), "N%x" % hi, first, "N%x" % (a + 1),
+                                           "R%x" % a, "T%x" % (a + 2), "g%x" % (a + 2), first])
+
+
 def rpu_random(r):
     wcfg = r.choice(WINDOWS)
     w = weff(wcfg)
@@ -62,7 +136,8 @@ def rpu_random(r):
         if ops and r.random() < 0.25:
             ops.append("r")
             continue
-        s = near(r, last, w)
+        s = near(r, last, w, WIDTH_K_UNIT)
+        s = min(max(s, 0), U64)
         ops.append("v%x" % s)
         if s < SEQ_MAX and s > last:
             last = s
@@ -193,7 +268,8 @@ def rps_of(line):
 
 # ------------------------------------------------------------------ sender (sst)
 
-FREQS = [0, 1, 2, 3, 4, 7, 10, 100, 65535, 4294967295]
+FREQS = [0, 1, 2, 3, 4, 7, 10, 100, 255, 256, 65535, 65536, 65537, (1 << 31) - 1, 1 << 31, (1 << 31) + 1,
+         4294967294, 4294967295]
 
 
 def sst_random(r):
@@ -202,6 +278,11 @@ def sst_random(r):
     c = r.random()
     if c < 0.5:
         start = r.choice([0, 1, ff - 1, ff, ff + 1, 2 * ff - 1, 2 * ff, 5 * ff + 1, r.randrange(0, 1000)])
+    elif c < 0.65:
+        # around the widths of next_seq / ssn_freq arithmetic
+        k = r.choice([8, 16, 31, 32, 33, 39])
+        start = max(0, r.choice([1, 1, 2, 3]) * (1 << k) + r.choice([0, 1, -1, 2, -2, ff, -ff, ff - 1, -(ff - 1)]))
+        start = min(start, 1 << 40)
     elif c < 0.8:
         start = SEQ_MAX - r.choice([0, 1, 2, 3, 4, 5, 9, 12, 40])
     elif c < 0.9:
@@ -258,6 +339,13 @@ def rpe_cases(quick):
                         if rep and n > 8:
                             continue
                         yield "rpe %s %d %d %d %d" % (w, b12, con, n, rep)
+    # the client's sender sequence number jumps (it resumed from a persisted number) by
+    # 2^k + e before some requests; every earlier datagram is replayed after every request
+    for w in (["32"] if quick else ["2", "32", "64"]):
+        for b12 in (0, 1):
+            for k in WIDTH_K:
+                for e in ((0, 10) if quick else (0, 1, 10, 31, 32, 64)):
+                    yield "rpe %s %d %d %d %d %d %d %x" % (w, b12, 0, 4, 1, 1, 0, (1 << k) + e)
     # the client process dies and restarts from the saved sender sequence number
     for w in (["2", "32"] if quick else ["1", "2", "32", "64"]):
         for b12 in (0, 1):
